@@ -84,6 +84,14 @@ CLAIMED = {
             "Generated-input search over (class group, wrapping in one or two modules, decoy placement); per-probe records, the remaining diagnostics and --extends output must agree with the top-level variant after stripping the prefix. Exploration.",
             "The group is self-contained by construction.",
             "DESIGN.md §4 C27"),
+    "C15": ("property-based testing (Hypothesis: generated user methods x call sites before/after/inside other methods) against a reference model of call-site union typing and body results",
+            "Generated-input search; parameter types inside the body and in the -i signature must cover the union of all call-site argument types and defaults, call results must equal the model's body result, body operations failing/succeeding for all argument types must / must not be reported. Exploration.",
+            "Known finding: a call before the definition of a method with >= 3 parameters combined with a later call of other types.",
+            "DESIGN.md §4 C15"),
+    "C17": ("property-based testing (Hypothesis + exhaustive enumeration of every shipped method with block_parameters x receivers x block forms) against a model of the documented block parameter types and Ruby block scoping",
+            "Enumerated and generated block calls; declared parameter types (modelled kinds), NilClass surplus parameters, restoration of a shadowed outer variable and invisibility of block-local variables are asserted through dbtp. Exploration.",
+            "Item/Flatten/UnifyArgument parameter kinds are not modelled: only scoping is asserted for them.",
+            "DESIGN.md §4 C17"),
 }
 
 PENDING_REASON = "check not built yet in this round (planned in DESIGN.md §3.11); no claim is made"
